@@ -27,6 +27,11 @@ def main(argv):
 
     def analyze_calltree(options, conditions):
         counter["iterations"] = 0
+        try:
+            from lib import hx
+            hx.DONE_COUNT[0] = 0
+        except Exception:
+            hx = None
         t0 = time.time()
         res = orig_calltree(options, conditions)
         stat = {
@@ -34,6 +39,7 @@ def main(argv):
             "status": res.verification_status.name,
             "confirmed_paths": res.num_confirmed_paths,
             "iterations": counter["iterations"],
+            "done_reached": hx.DONE_COUNT[0] if hx else None,
             "wall_s": round(time.time() - t0, 3),
         }
         sys.stdout.write("XHSTAT " + json.dumps(stat) + "\n")
